@@ -325,65 +325,123 @@ def call_shape(node):
     return (k,) + tuple(call_shape(c) for c in n.get('c', []) or [])
 
 
+class WeightedHooks(GslHooks):
+    """RotateToB0/UDaggerTransform and RotateToB1/UTransform are replaced by *named symbolic linear maps*
+    (one coefficient symbol per (output,input) component, named by the kind of map and by which argument of
+    WeightedRotation parametrises it); everything else - the copies, the Yd sandwich built from commutators and
+    anticommutators, the final store - is interpreted from the source."""
+
+    def __init__(self, roles):
+        GslHooks.__init__(self)
+        self.roles = roles  # id(argument object) -> 'arg0' / 'arg2'
+        self.applied = []
+
+    def role_of(self, it, argnode):
+        v = it.lval(argnode) if (argnode.get('lv') or argnode.get('xv')) else it.eval(argnode)
+        key = id(v.value) if hasattr(v, 'value') and not isinstance(v, Ptr) else None
+        if isinstance(v, Ptr):
+            key = id(v.region)
+        elif hasattr(v, 'value') and isinstance(v.value, Ptr):
+            key = id(v.value.region)
+        return self.roles.get(key, 'unknown')
+
+    def linear_map(self, it, kind, role, vec_obj):
+        d = vec_obj.fields['dim'].value
+        p = vec_obj.fields['components'].value
+        xs = [p.region.cell(p.off + k).value for k in range(d * d)]
+        out = []
+        for k in range(d * d):
+            acc = Poly()
+            for m in range(d * d):
+                acc = acc + Poly.var('%s[%s]_%d_%d' % (kind, role, k, m)) * xs[m]
+            out.append(acc)
+        self.applied.append((kind, role))
+        return out
+
+    def override_call(self, it, fdecl, node, args, this_cell):
+        nm = fdecl['name']
+        if nm in ('squids::SU_vector::RotateToB0', 'squids::SU_vector::RotateToB1'):
+            kind = 'B0' if nm.endswith('B0') else 'B1'
+            vals = self.linear_map(it, kind, self.role_of(it, args[0]), this_cell.value)
+            p = this_cell.value.fields['components'].value
+            for k, v in enumerate(vals):
+                it.write(p.region.cell(p.off + k), v, node)
+            return None
+        if nm in ('squids::SU_vector::UDaggerTransform', 'squids::SU_vector::UTransform') and len(fdecl['params']) == 1:
+            kind = 'B0' if nm.endswith('UDaggerTransform') else 'B1'
+            vals = self.linear_map(it, kind, self.role_of(it, args[0]), this_cell.value)
+            d = this_cell.value.fields['dim'].value
+            c, reg = make_suv('transformed', d, 'z', content=lambda k, vals=vals: vals[k])
+            return c.value
+        if nm == 'squids::SU_vector::alloc_aligned':
+            size = it.eval(args[1])
+            r = Region('heap#%d' % len(self.matrices), size, None, 'heap')
+            self.matrices.append(r)
+            it.write(it.lval(args[2]), Ptr(r, 0), node)
+            it.write(it.lval(args[3]), 0, node)
+            return None
+        if nm == 'squids::SU_vector::deallocate_mem':
+            return None
+        return GslHooks.override_call(self, it, fdecl, node, args, this_cell)
+
+    def new_matrix(self, n1, n2, name=None, entry=None):
+        m = GslMatrix(n1, n2, entry, name or 'gslm#%d' % len(self.matrices))
+        m.word = None
+        self.matrices.append(m)
+        return m
+
+
 def check_weighted(db, rep):
+    """both overloads, interpreted in dimensions 2 and 3, must leave the same components in *this when
+    RotateToB0(p) ~ UDaggerTransform(p) and RotateToB1(p) ~ UTransform(p) denote the same linear maps"""
     unit = db.unit('SUNalg')
     fs = db.find('SUNalg', 'squids::SU_vector::WeightedRotation', 3)
-    if len(fs) != 2:
-        raise AnalysisBroken('expected two WeightedRotation overloads, found %d' % len(fs))
     fa = [f for f in fs if 'Const' in f['params'][0]['t']]
     fb = [f for f in fs if 'gsl_matrix_complex' in f['params'][0]['t']]
     if len(fa) != 1 or len(fb) != 1:
-        raise AnalysisBroken('WeightedRotation overloads not recognised')
+        raise AnalysisBroken('WeightedRotation overloads not recognised (%d, %d)' % (len(fa), len(fb)))
     fa, fb = fa[0], fb[0]
     rep.fn(fa['name'] + '(Const)')
     rep.fn(fb['name'] + '(gsl_matrix_complex*)')
-
-    def steps(f):
-        out = []
-        pn = [p['name'] for p in f['params']]
-        for st in f['body'].get('c', []):
-            if st['k'] == 'DeclStmt':
-                for d in st['decls']:
-                    out.append(('decl', d.get('t'), call_shape(d['init']) if d.get('init') else None))
+    for d in (2, 3):
+        results = []
+        for f in (fa, fb):
+            this, reg = make_suv('self', d, 'a')
+            yd, _ = make_suv('Yd', d, 'y')
+            if f is fa:
+                a0 = Cell(Obj('squids::Const', None, 'V'), None, 0, 'V')
+                a2 = Cell(Obj('squids::Const', None, 'W'), None, 0, 'W')
+                roles = {id(a0.value): 'arg0', id(a2.value): 'arg2'}
+                hooks = WeightedHooks(roles)
+                args = [a0, yd, a2]
             else:
-                out.append(call_shape(st))
-        # rename parameters to roles
-        def ren(x):
-            if isinstance(x, tuple):
-                if len(x) == 2 and x[0] == 'var' and x[1] in pn:
-                    return ('param', pn.index(x[1]))
-                return tuple(ren(y) for y in x)
-            return x
-        return [ren(s) for s in out]
-    sa, sb = steps(fa), steps(fb)
-    # map the Const-based rotation calls to the matrix-based ones:
-    #   suv.RotateToB0(p)  <->  suv = suv.UDaggerTransform(p)      suv.RotateToB1(p)  <->  suv = suv.UTransform(p)
-    def canon(steps_):
-        out = []
-        for s in steps_:
-            if isinstance(s, tuple) and s and s[0] == 'squids::SU_vector::RotateToB0':
-                out.append(('B0', s[1], s[2]))
-            elif isinstance(s, tuple) and s and s[0] == 'squids::SU_vector::RotateToB1':
-                out.append(('B1', s[1], s[2]))
-            elif isinstance(s, tuple) and s and s[0] == 'squids::SU_vector::operator=' and len(s) == 3 and isinstance(s[2], tuple) \
-                    and s[2] and s[2][0] == 'squids::SU_vector::UDaggerTransform' and s[1] == s[2][1]:
-                out.append(('B0', s[1], s[2][2]))
-            elif isinstance(s, tuple) and s and s[0] == 'squids::SU_vector::operator=' and len(s) == 3 and isinstance(s[2], tuple) \
-                    and s[2] and s[2][0] == 'squids::SU_vector::UTransform' and s[1] == s[2][1]:
-                out.append(('B1', s[1], s[2][2]))
-            else:
-                out.append(s)
-        return out
-    ca, cb = canon(sa), canon(sb)
-    kinds = [s[0] for s in ca if isinstance(s, tuple) and s and s[0] in ('B0', 'B1')]
-    if ca == cb and kinds == ['B0', 'B1']:
-        rep.ok('D.weighted')
-        rep.sample('D.weighted', 'both overloads: copy; B0(param 0); Yd sandwich; B1(param 2); store')
-    else:
-        diff = [(x, y) for x, y in zip(ca, cb) if x != y]
-        rep.fail('D.weighted', 'WeightedRotation', unit.loc(fb),
-                 'the two overloads have the same normal form under RotateToB0<->UDaggerTransform, RotateToB1<->UTransform, with B0 on the first and B1 on the third argument',
-                 'first difference: %s' % (diff[0] if diff else (kinds, len(ca), len(cb)),), fb['name'])
+                hooks = WeightedHooks({})
+                m0 = hooks.new_matrix(d, d, 'V')
+                m2 = hooks.new_matrix(d, d, 'W')
+                hooks.roles = {id(m0.region): 'arg0', id(m2.region): 'arg2'}
+                args = [m0.ptr, yd, m2.ptr]
+            it = Interp(unit, hooks)
+            try:
+                it.call(f, this, args)
+            except Thrown as t:
+                rep.fail('D.weighted', 'WeightedRotation/%d' % d, unit.loc(t.node), 'a transformed vector', 'throw: %s' % t.what, f['name'])
+                results = None
+                break
+            p = this.value.fields['components'].value
+            results.append(([p.region.cell(p.off + k).value for k in range(d * d)], list(hooks.applied)))
+        if results is None:
+            continue
+        (ra, appa), (rb, appb) = results
+        same = all(isinstance(x, Poly) and isinstance(y, Poly) and x.equals(y) for x, y in zip(ra, rb))
+        want_seq = [('B0', 'arg0'), ('B1', 'arg2')]
+        if same and appa == want_seq and appb == want_seq:
+            rep.ok('D.weighted')
+            rep.sample('D.weighted', 'd=%d: both overloads give B1[arg2] . Yd-sandwich . B0[arg0] applied to the vector (components identical as polynomials)' % d)
+        else:
+            k = next((i for i, (x, y) in enumerate(zip(ra, rb)) if not (isinstance(x, Poly) and isinstance(y, Poly) and x.equals(y))), None)
+            rep.fail('D.weighted', 'WeightedRotation/%d' % d, unit.loc(fb),
+                     'the two overloads agree: first the to-B0 map of the first argument, then the Yd sandwich, then the to-B1 map of the third argument',
+                     'maps applied: %s vs %s%s' % (appa, appb, ('; component %d differs' % k) if k is not None else ''), fb['name'])
 
 
 def check_const_accessors(db, rep):
